@@ -19,6 +19,9 @@ fn main() {
             }
         }
         print!("{}", r.out);
+        for f in &r.oracle_failures {
+            eprintln!("oracle_fail={f}");
+        }
         return;
     }
     if a.len() != 6 {
@@ -70,6 +73,14 @@ fn main() {
     }
     for (k, v) in &r.resp_hist {
         s += &format!("resp:{k}={v}\n");
+    }
+    // reachability classes (audit TOP GAP 1): ops per (kind, class), cases left unjudged after a contract violation
+    for (k, v) in &r.class_hist {
+        s += &format!("class:{k}={v}\n");
+    }
+    s += &format!("tainted_cases={}\n", r.tainted_cases);
+    for f in &r.unjudged_panics {
+        s += &format!("unjudged_panic={f}\n");
     }
     for smp in &r.samples {
         s += &format!("sample={}\n", smp.join(" ; "));
